@@ -43,6 +43,18 @@ type c18Itf struct {
 	Acts []c18Act `json:"acts"`
 }
 
+// c18HighID: action identifiers are 32-bit unsigned on the wire, TLC's integers are 32-bit signed.  The
+// specification's identifiers 2147483601.. stand for 2^31, 2^31+1, .. and 2147483646 for 2^32-1.
+func c18HighID(id uint32) uint32 {
+	switch {
+	case id == 2147483646:
+		return 4294967295
+	case id > 2147483600 && id < 2147483646:
+		return id - 2147483601 + 1<<31
+	}
+	return id
+}
+
 func (it *c18Itf) meta() object.MetaObject {
 	m := object.MetaObject{
 		Methods:    map[uint32]object.MetaMethod{},
@@ -202,6 +214,9 @@ func c18Child(args []string) {
 		itfs[i] = &c18Itf{}
 		if err := json.Unmarshal(l.V, itfs[i]); err != nil {
 			hlib.Fatal("line %d: %v", i, err)
+		}
+		for k := range itfs[i].Acts {
+			itfs[i].Acts[k].UID = c18HighID(itfs[i].Acts[k].UID)
 		}
 		sort.Slice(itfs[i].Acts, func(a, b int) bool { return itfs[i].Acts[a].UID < itfs[i].Acts[b].UID })
 	}
@@ -509,6 +524,10 @@ func c18MutateMain(args []string) {
 		}
 	}
 	w("package p\nstruct A\n\ta: A\nend\ninterface I\n\tfn f(a: A) -> A\nend\n", "recursive-struct")
+	// a structure that reaches itself through SEVERAL references
+	w("package p\nstruct Node\n\tleft: Node\n\tright: Node\n\tvalue: int32\nend\ninterface I\n\tfn f(a: Node) -> Node //uid:100\nend\n", "recursive-struct")
+	w("package p\nstruct Tree\n\tkids: Vec<Tree>\n\tindex: Map<str,Tree>\nend\ninterface I\n\tfn f(a: Tree) //uid:100\n\tsig s(t: Tree) //uid:101\nend\n", "recursive-struct")
+	w("package p\nstruct A\n\tb1: B\n\tb2: B\nend\nstruct B\n\ta1: A\n\ta2: A\nend\ninterface I\n\tfn f(a: A) -> B //uid:100\nend\n", "recursive-struct")
 	w("package p\nstruct A\n\tb: B\nend\nstruct B\n\ta: A\nend\ninterface I\n\tfn f(a: A) -> B\nend\n", "recursive-struct")
 	w("package p\ninterface I\n\tfn f(a: I) -> I\n\tsig s(a: Unknown)\n\tprop p(a: I)\nend\n", "self-reference")
 	res := hlib.Result{}
